@@ -205,6 +205,7 @@ struct BodySpec {
     after_stmt: Vec<(String, usize, String)>,
     closures: BTreeMap<usize, String>,
     optional_closures: Vec<usize>,
+    optional_loops: Vec<usize>,
     replace: Vec<(String, String, bool)>, // original (normalized), replacement, optional
     keep_unsafe: bool,
     tmpl_line: usize,
@@ -1024,7 +1025,14 @@ fn main() {
                     let kind = it.next().unwrap();
                     let arg = it.next().unwrap_or("").trim();
                     match kind {
-                        "LOOP" => { spec.loops.insert(arg.parse().unwrap_or_else(|_| die("LOOP needs ordinal")), txt); }
+                        "LOOP" => {
+                            let mut it = arg.split_whitespace();
+                            let n: usize = it.next().unwrap_or("").parse().unwrap_or_else(|_| die("LOOP needs ordinal"));
+                            if it.next() == Some("optional") {
+                                spec.optional_loops.push(n);
+                            }
+                            spec.loops.insert(n, txt);
+                        }
                         "PROLOGUE" => spec.prologue = txt,
                         "EPILOGUE" => spec.epilogue = txt,
                         "AFTER-LET" => {
@@ -1193,7 +1201,7 @@ fn main() {
             }
             // anchors must all be used
             for (n, _) in &spec.loops {
-                if !rw.used_loops.contains(n) {
+                if !rw.used_loops.contains(n) && !spec.optional_loops.contains(n) {
                     die(&format!("anchor lost: loop #{} of {}", n, spec.func));
                 }
             }
